@@ -2,7 +2,9 @@
 # Build the verification framework from files on disk only (offline).
 set -e
 export GOFLAGS=-mod=mod GOPROXY=off GOSUMDB=off GOTOOLCHAIN=local
-mkdir -p /verif/harness/work
-cd /verif/harness && go build -o /verif/harness/work/pgtharness ./cmd/pgtharness
-/verif/harness/work/pgtharness extract /repo /verif/lean/PGT/Generated >/dev/null || true
-cd /verif/lean && lake build PGT pgtmodel
+V="$(cd "$(dirname "$0")" && pwd)"
+export VERIF_ROOT="$V"
+mkdir -p "$V/harness/work"
+cd "$V/harness" && go build -o "$V/harness/work/pgtharness" ./cmd/pgtharness
+"$V/harness/work/pgtharness" extract /repo "$V/lean/PGT/Generated" >/dev/null || true
+cd "$V/lean" && lake build PGT pgtmodel
